@@ -14,7 +14,7 @@ RULE = {"C17": "per sensor model: all 4096 ADC codes (v = code*5/4096) through A
                "inside/outside the range. Non-trivial = voltage > 0 whose power-law value lies strictly inside the range "
                "(the law, not the clamp, decides) or a sim distance inside the range; distinct = distinct (model, input)."}
 RULE["C17"] += '  Readings at or below 0 V must be the far end of the range (monotonicity); sub-LSB voltage steps; replays feed the recent input history first.'
-REQUIRED = {"C17": {"near-pair": 300, "adc-code": 3 * 4096, "special-double": 60, "random-double": 3000, "in-range-law-checked": 3000,
+REQUIRED = {"C17": {"first-reading-of-a-new-driver-object": 60, "driver-built-through-its-older-name": 5, "near-pair": 300, "adc-code": 3 * 4096, "special-double": 60, "random-double": 3000, "in-range-law-checked": 3000,
                     "clamped-low": 100, "clamped-high": 100, "monotone-pair": 10000, "sim-roundtrip": 600,
                     "sim-outside-range": 100, "sim-fresh-helper": 50, "sim-raw-write-between": 50}}
 ASSUMPTIONS = {"C17": ["AnalogInputSim.setVoltage passes any double unchanged to AnalogInput.getVoltage (probed: yes, incl. inf and negatives)"]}
@@ -50,6 +50,52 @@ def sensors():
             s = getattr(ds, name)(port)
             _SENSORS[name] = (s, AnalogInputSim(s.distance), getattr(dss, name + "Sim")(s))
     return _SENSORS
+
+
+def check_fresh(acc, name, v, via_alias=False):
+    """The very first reading of a brand-new driver object (and, for sim round trips, a brand-new helper on it)."""
+    import gc
+    from robotpy_ext.common_drivers import distance_sensors as ds
+    from robotpy_ext.common_drivers import distance_sensors_sim as dss
+    from wpilib.simulation import AnalogInputSim
+    c, e, lo, hi = MODELS[name]
+    cls = getattr(ds, "SharpIRGP2Y0A41SK0F" if via_alias else name)      # the older name of the 2Y0A41 driver is an alias
+    case = {"mode": "fresh", "model": name, "v_bits": struct.pack(">d", v).hex(), "via_alias": via_alias}
+    acc.evaluations += 1
+    acc.ev("first-reading-of-a-new-driver-object")
+    if via_alias:
+        acc.ev("driver-built-through-its-older-name")
+    s = sim = helper = None
+    try:
+        s = cls(5)
+        sim = AnalogInputSim(s.distance)
+        sim.setVoltage(v)
+        d = s.getDistance()
+        acc.checks += 1
+        if not isinstance(d, float) or not math.isfinite(d) or not (lo <= d <= hi):
+            acc.violation("C17/out-of-range", f"{name} (new object): voltage {v!r} -> distance {d!r} outside [{lo}, {hi}]", case, {"d": repr(d)})
+            return
+        if v > 0 and math.isfinite(v):
+            law = c * math.pow(v, e) if v > 1e-200 else math.inf
+            want = min(max(law, lo), hi)
+            if abs(d - want) > 1e-9 * want:
+                acc.violation("C17/power-law", f"{name} (new object): voltage {v!r} -> {d!r}, expected {want!r}", case, {})
+                return
+        elif v <= 0 and d != hi:
+            acc.violation("C17/not-monotone", f"{name} (new object): voltage {v!r} reads {d!r}, the far end is {hi}", case, {})
+            return
+        # a helper attached to the new object
+        helper = getattr(dss, name + "Sim")(s)
+        x = (lo + hi) / 3
+        helper.setDistance(x)
+        acc.checks += 1
+        if helper.getDistance() != x or abs(s.getDistance() - x) > 1e-9 * x:
+            acc.violation("C17/sim-inverse", f"{name} (new object): after setDistance({x!r}) helper says {helper.getDistance()!r}, sensor {s.getDistance()!r}", case, {})
+    except Exception as ex:  # noqa
+        acc.violation("C17/raised", f"{name} (new object{', built through its older name' if via_alias else ''}): voltage {v!r}: {ex!r}", case, {"v": repr(v)})
+    finally:
+        del s, sim, helper
+        gc.collect()
 
 
 def check_voltage(acc, name, v, kind):
@@ -180,6 +226,8 @@ def run_shard(spec):
             for v in SPECIALS:
                 pairs.append((v, check_voltage(acc, name, v, "special-double")))
             check_monotone(acc, name, pairs)
+            for v in SPECIALS + [0.4, 1.0, 2.5, 6.0]:
+                check_fresh(acc, name, v, via_alias=(name == "SharpIR2Y0A41" and len(str(v)) % 2 == 0))
             acc.samples.append({"model": name, "code": 1000, "v": 1000 * 5 / 4096,
                                 "distance": sensors()[name][0].getDistance() if sensors()[name][1].setVoltage(1000 * 5 / 4096) is None else None})
         acc.extra["exhaustive"] = True
@@ -250,7 +298,10 @@ def _replay_once(case, cross_model_first):
                     pass
     _feed_history(case)
     _RECENT.clear()
-    if case["mode"] == "voltage":
+    if case["mode"] == "fresh":
+        v = struct.unpack(">d", bytes.fromhex(case["v_bits"]))[0]
+        check_fresh(acc, case["model"], v, case.get("via_alias", False))
+    elif case["mode"] == "voltage":
         v = struct.unpack(">d", bytes.fromhex(case["v_bits"]))[0]
         check_voltage(acc, case["model"], v, "replay")
     elif case["mode"] == "pair":
